@@ -3,7 +3,9 @@ package rules
 import (
 	"fmt"
 	"go/constant"
+	"go/types"
 	"sort"
+	"strconv"
 	"strings"
 
 	"golang.org/x/tools/go/ssa"
@@ -27,6 +29,8 @@ func runC09(c *Check, tier string) {
 	// dependency output digests are part of the key: they must not depend on what the cache already holds
 	ruleRecordCacheIndependent(c, "R09g")
 	ruleMemoKeyComplete(c, "R09h", "hashing", "output")
+	ruleStarlarkDisplayFormNotStored(c, "R09i")
+	ruleRecordListsFilledSequentially(c, "R09j")
 }
 
 // R09f: every listed input file contributes its content — the loop that streams the input files into the
@@ -901,4 +905,97 @@ func framedByLength(c *Check, fn *ssa.Function, s HasherSink, all []HasherSink) 
 		}
 	}
 	return false
+}
+
+// R09i: BUILD-file format independence. A Starlark value reaches the target description through the Go
+// conversions (string(v), AsString, Int64, Truth …). Value.String() is the *display* form — a quoted, escaped
+// literal for strings — so a description built from it differs from what the JSON/YAML loaders produce for the
+// same text, and with it the cache key.
+func ruleStarlarkDisplayFormNotStored(c *Check, rule string) {
+	c.Rule(rule, "no result of String() called on a go.starlark.net value flows (value-flow graph) into a field of the loader DTOs or of the model: the display form of a Starlark string is a quoted, escaped literal", 1)
+	n, bad := 0, 0
+	for _, fn := range c.P.Funcs {
+		if !engine.InPackage(fn, "loading") {
+			continue
+		}
+		for _, s := range engine.SitesIn(fn) {
+			cc := s.Common()
+			var recv types.Type
+			switch {
+			case cc.IsInvoke() && cc.Method.Name() == "String":
+				recv = cc.Value.Type()
+			case cc.StaticCallee() != nil && cc.StaticCallee().Name() == "String" && cc.StaticCallee().Signature.Recv() != nil:
+				recv = cc.StaticCallee().Signature.Recv().Type()
+			default:
+				continue
+			}
+			if !strings.Contains(recv.String(), "go.starlark.net/") || s.Value() == nil {
+				continue
+			}
+			n++
+			fwd := c.G.Forward([]Node{s.Value()}, nil)
+			var hit []string
+			for node := range fwd.Parent {
+				if k, ok := node.(engine.FieldKey); ok && (strings.HasPrefix(k.T, "loading.") && strings.HasSuffix(k.T, "DTO") || strings.HasPrefix(k.T, "model.")) {
+					hit = append(hit, k.String())
+				}
+			}
+			if len(hit) > 0 {
+				bad++
+				sort.Strings(hit)
+				c.Bad(rule, "display-form-not-stored/"+c.P.FuncName(fn), "the display form of a Starlark value ("+engine.CalleeName(s)+") flows into "+strings.Join(hit, ", ")+": a string containing a quote, backslash or newline arrives escaped, so the same target state loaded from BUILD.star and from BUILD.json gets different descriptions and cache keys", c.P.InstrPos(s))
+			}
+		}
+	}
+	if bad == 0 {
+		c.OK(rule, "display-form-not-stored", strconv.Itoa(n)+" String() calls on Starlark values in internal/loading: none flows into a DTO or model field", "-")
+	}
+}
+
+// R09j: the order of the lists inside a persisted record (files, sub-directories, symlinks of a directory
+// node …) is part of its digest. Entries appended from goroutines arrive in completion order; a later sort only
+// repairs that when its key is unique, which the shape of the code cannot show — so records are filled
+// sequentially.
+func ruleRecordListsFilledSequentially(c *Check, rule string) {
+	c.Rule(rule, "no function started as a goroutine (go statement, pool Submit, errgroup Go) stores into a slice field of a persisted record type (proto/gen): list order inside a record, and with it the record's digest, does not depend on the schedule", 1)
+	spawned := map[*ssa.Function]bool{}
+	sites := 0
+	for _, fn := range c.P.Funcs {
+		for _, s := range engine.SitesIn(fn) {
+			for _, f := range spawnedAt(c, s) {
+				spawned[f] = true
+				sites++
+			}
+		}
+	}
+	bad := 0
+	for fn := range spawned {
+		if !(engine.InPackage(fn, "output") || engine.InPackage(fn, "caching") || engine.InPackage(fn, "hashing")) {
+			continue
+		}
+		for _, b := range fn.Blocks {
+			for _, in := range b.Instrs {
+				st, ok := in.(*ssa.Store)
+				if !ok {
+					continue
+				}
+				fa, ok := st.Addr.(*ssa.FieldAddr)
+				if !ok {
+					continue
+				}
+				k := engine.FieldKeyOf(fa.X.Type(), fa.Field)
+				if !strings.HasPrefix(k.T, "proto/gen.") {
+					continue
+				}
+				if _, isSlice := st.Val.Type().Underlying().(*types.Slice); !isSlice {
+					continue
+				}
+				bad++
+				c.Bad(rule, "record-lists-sequential/"+c.P.FuncName(fn), k.String()+" is appended to from a goroutine: the entries are recorded in completion order, so the digest of the record (and every cache key derived from it) differs from run to run for the same content", c.P.InstrPos(st))
+			}
+		}
+	}
+	if bad == 0 {
+		c.OK(rule, "record-lists-sequential", "none of the "+strconv.Itoa(len(spawned))+" goroutine bodies stores into a list field of a persisted record", "-")
+	}
 }
